@@ -3,6 +3,7 @@
 from __future__ import annotations
 
 from contextlib import AbstractContextManager
+from copy import copy
 from dataclasses import dataclass, field, replace
 from typing import (
     TYPE_CHECKING,
@@ -190,6 +191,12 @@ class DfBase(ParentBuilder[DP], DefinitionBuilder, AbstractContextManager):
             >>> dfg.add_op(ops.Noop(), dfg.inputs()[0])
             Node(3)
         """
+        if isinstance(op, ops._PartialOp) and _is_complete(op):
+            # The types of such an operation are inferred from the wires of each use.
+            # An object that already carries types (given at construction or by an
+            # earlier use) gets a copy for this node: typing it for this use must
+            # not re-type the nodes already holding the same object.
+            op = copy(op)
         new_n = self.hugr.add_node(op, self.parent_node, metadata=metadata)
         self._wire_up(new_n, args)
 
@@ -664,6 +671,14 @@ class Dfg(DfBase[ops.DFG]):
     def set_outputs(self, *outputs: Wire) -> None:
         super().set_outputs(*outputs)
         self._set_parent_output_count(len(outputs))
+
+
+def _is_complete(op: ops.DataflowOp) -> bool:
+    try:
+        op.outer_signature()
+    except ops.IncompleteOp:
+        return False
+    return True
 
 
 def _ancestral_sibling(h: Hugr, src: Node, tgt: Node) -> Node | None:
